@@ -301,3 +301,132 @@ Proof. exists collide_t. vm_compute. lia. Qed.
 Lemma ids_collide_values :
   snd (cxx_graph_keys collide_t) = [LeafId 0; OpId 2 [LeafId 0]; OpId 1 [LeafId 0; OpId 2 [LeafId 0]]].
 Proof. reflexivity. Qed.
+
+(* ---------- compute graph of a view DAG ---------- *)
+
+Lemma nid_ind' (P : nid -> Prop) :
+  (forall n, P (LeafId n)) -> (forall n args, Forall P args -> P (OpId n args)) -> forall t, P t.
+Proof.
+  intros HL HN. fix IH 1. intros [n|n args]; [apply HL|]. apply HN.
+  induction args as [|a l IHl]; constructor; [apply IH | exact IHl].
+Qed.
+
+Fixpoint list_eqb {A} (eqb : A -> A -> bool) (l k : list A) : bool :=
+  match l, k with [], [] => true | a :: l', b :: k' => eqb a b && list_eqb eqb l' k' | _, _ => false end.
+
+Lemma nid_eqb_op n l m k : nid_eqb (OpId n l) (OpId m k) = Nat.eqb n m && list_eqb nid_eqb l k.
+Proof.
+  cbn [nid_eqb]. f_equal. revert k. induction l as [|a l IH]; intros [|b k]; cbn [list_eqb]; try reflexivity.
+  f_equal. apply IH.
+Qed.
+
+Lemma nid_eqb_eq x : forall y, nid_eqb x y = true <-> x = y.
+Proof.
+  induction x as [n|n args IH] using nid_ind'; intros [m|m k].
+  - cbn [nid_eqb]. rewrite Nat.eqb_eq. split; [intros ->; reflexivity | intros [= ->]; reflexivity].
+  - cbn [nid_eqb]. split; discriminate.
+  - cbn [nid_eqb]. split; discriminate.
+  - rewrite nid_eqb_op, andb_true_iff, Nat.eqb_eq.
+    assert (L : list_eqb nid_eqb args k = true <-> args = k).
+    { revert k. induction IH as [|a l Ha _ IHl]; intros [|b k]; cbn [list_eqb]; try (split; [discriminate|discriminate]); [tauto|].
+      rewrite andb_true_iff, Ha, IHl. split; [intros [-> ->]; reflexivity | intros [= -> ->]; auto]. }
+    rewrite L. split; [intros [-> ->]; reflexivity | intros [= -> ->]; auto].
+Qed.
+
+Lemma edge_eqb_eq e f : edge_eqb e f = true <-> e = f.
+Proof.
+  unfold edge_eqb. rewrite andb_true_iff, !nid_eqb_eq. destruct e, f; cbn [fst snd].
+  split; [intros [-> ->]; reflexivity | intros [= -> ->]; auto].
+Qed.
+
+Section Dedup.
+Context {A : Type} (eqb : A -> A -> bool) (Heq : forall x y, eqb x y = true <-> x = y).
+Lemma In_dedup l : forall z, In z (dedup eqb l) <-> In z l.
+Proof.
+  induction l as [|x t IH]; intros z; cbn [dedup In]; [tauto|].
+  rewrite filter_In, IH, negb_true_iff. split.
+  - intros [H|[H _]]; auto.
+  - intros [H|H]; [left; exact H|]. destruct (eqb x z) eqn:E; [left; now apply Heq | right; auto].
+Qed.
+Lemma NoDup_dedup l : NoDup (dedup eqb l).
+Proof.
+  induction l as [|x t IH]; cbn [dedup]; constructor.
+  - rewrite filter_In. intros [_ H]. rewrite (proj2 (Heq x x) eq_refl) in H. discriminate.
+  - now apply NoDup_filter.
+Qed.
+End Dedup.
+
+Lemma NoDup_map_inj_on {A B} (h : A -> B) (l : list A) :
+  NoDup l -> (forall x y, In x l -> In y l -> h x = h y -> x = y) -> NoDup (map h l).
+Proof.
+  induction 1 as [|a l Hn Hd IH]; intros Hinj; cbn [map]; constructor.
+  - intros Hin. apply in_map_iff in Hin as [y [Ey Hy]].
+    assert (y = a) by (apply Hinj; [right; exact Hy | left; reflexivity | exact Ey]). subst. contradiction.
+  - apply IH. intros x y Hx Hy. apply Hinj; right; assumption.
+Qed.
+
+Lemma subterms_self t : In t (subterms t).
+Proof. destruct t; cbn [subterms]; [left; reflexivity | apply in_or_app; right; left; reflexivity]. Qed.
+
+Lemma subterms_trans t : forall p q, In p (subterms t) -> In q (subterms p) -> In q (subterms t).
+Proof.
+  induction t as [n|n args IH] using nid_ind'; intros p q Hp Hq.
+  - cbn [subterms] in Hp. destruct Hp as [<-|[]]. exact Hq.
+  - cbn [subterms] in Hp |- *. apply in_app_or in Hp as [Hp|[<-|[]]].
+    + apply in_or_app. left. apply in_flat_map in Hp as [a [Ha Hpa]]. apply in_flat_map. exists a. split; [exact Ha|].
+      rewrite Forall_forall in IH. exact (IH a Ha p q Hpa Hq).
+    + exact Hq.
+Qed.
+
+Lemma subterms_operand t p a : In p (subterms t) -> In a (operands_of p) -> In a (subterms t).
+Proof.
+  intros Hp Ha. apply (subterms_trans t p a Hp). destruct p as [|n args]; [destruct Ha|].
+  cbn [operands_of] in Ha. cbn [subterms]. apply in_or_app. left. apply in_flat_map. exists a. split; [exact Ha | apply subterms_self].
+Qed.
+
+Lemma all_edges_char t : forall a p,
+  In (a, p) (all_edges t) <-> In p (subterms t) /\ In a (operands_of p).
+Proof.
+  induction t as [n|n args IH] using nid_ind'; intros a p.
+  - cbn [all_edges subterms In]. split; [tauto|]. intros [[<-|[]] H]. exact H.
+  - cbn [all_edges subterms]. rewrite Forall_forall in IH. rewrite !in_app_iff, !in_flat_map. split.
+    + intros [[x [Hx H]]|H].
+      * apply IH in H as [H1 H2]; [|exact Hx]. split; [left; exists x; auto | exact H2].
+      * apply in_map_iff in H as [y [E Hy]]. inversion E; subst. split; [right; left; reflexivity | exact Hy].
+    + intros [[[x [Hx H]]|[<-|[]]] Ha].
+      * left. exists x. split; [exact Hx|]. apply IH; auto.
+      * right. apply in_map_iff. exists a. split; [reflexivity | exact Ha].
+Qed.
+
+(* the DAG graph: distinct nodes, no edge twice, edges exactly (operand node, operation) *)
+Lemma dag_graph_spec t :
+  NoDup (dag_nodes t) /\ NoDup (dag_edges t)
+  /\ (forall p, In p (dag_nodes t) <-> In p (subterms t))
+  /\ (forall a p, In (a, p) (dag_edges t) <-> In p (dag_nodes t) /\ In a (operands_of p))
+  /\ (forall a p, In (a, p) (dag_edges t) -> In a (dag_nodes t)).
+Proof.
+  unfold dag_nodes, dag_edges.
+  split; [apply NoDup_dedup, (fun x y => nid_eqb_eq x y)|].
+  split; [apply NoDup_dedup, edge_eqb_eq|].
+  split; [intros p; apply In_dedup, (fun x y => nid_eqb_eq x y)|].
+  split.
+  - intros a p. rewrite (In_dedup edge_eqb edge_eqb_eq), (In_dedup nid_eqb (fun x y => nid_eqb_eq x y)). apply all_edges_char.
+  - intros a p H. rewrite (In_dedup edge_eqb edge_eqb_eq) in H. rewrite (In_dedup nid_eqb (fun x y => nid_eqb_eq x y)).
+    apply all_edges_char in H as [H1 H2]. exact (subterms_operand t p a H1 H2).
+Qed.
+
+(* every operation node has exactly its distinct operand nodes as in-edges, each once: in-degree = arity
+   whenever the operands are different nodes *)
+Lemma dag_in_edges t p : In p (dag_nodes t) ->
+  NoDup (in_edges p (dag_edges t)) /\ (forall a, In a (in_edges p (dag_edges t)) <-> In a (operands_of p)).
+Proof.
+  intros Hp. destruct (dag_graph_spec t) as [_ [Hnd [_ [He _]]]]. unfold in_edges. split.
+  - apply NoDup_map_inj_on; [now apply NoDup_filter|].
+    intros [a1 p1] [a2 p2] H1 H2 E. apply filter_In in H1 as [_ H1]. apply filter_In in H2 as [_ H2].
+    cbn [fst snd] in *. apply nid_eqb_eq in H1, H2. subst. reflexivity.
+  - intros a. rewrite in_map_iff. split.
+    + intros [[a' p'] [E H]]. cbn [fst] in E. subst a'. apply filter_In in H as [H Hs]. cbn [snd] in Hs.
+      apply nid_eqb_eq in Hs. subst p'. apply He in H. tauto.
+    + intros Ha. exists (a, p). split; [reflexivity|]. apply filter_In. split; [apply He; auto|].
+      cbn [snd]. now apply nid_eqb_eq.
+Qed.
